@@ -7,12 +7,20 @@ python3 - <<'PY'
 import sys; sys.path.insert(0, "lib")
 import common as C
 C.coq_prepare()
-rc, out = C.sh("make -j16", cwd=C.COQ, timeout=7000)
+# -k: one broken file must not keep the other properties from being built; each check rebuilds
+# its own target and reports a broken one as a failed obligation.
+rc, out = C.sh("make -k -j16", cwd=C.COQ, timeout=7000)
 print(out[-3000:])
-if rc != 0: sys.exit(1)
-for crate, rel in (("harness", False), ("harness", True)):
-    ok, log, _ = C.harness_build([], release=rel, crate=crate)
-    print(log[-800:])
-    if not ok: sys.exit(1)
+import os, glob
+for crate in ("harness", "harness_cli"):
+    if not os.path.isdir(os.path.join(C.ROOT, crate)): continue
+    bins = [os.path.basename(f)[:-3] for f in glob.glob(os.path.join(C.ROOT, crate, "src", "bin", "*.rs"))]
+    for rel in (False, True):
+        ok, log, _ = C.harness_build([], release=rel, crate=crate)
+        print(log[-600:])
+        if not ok:
+            for b in bins:
+                ok1, log1, _ = C.harness_build([b], release=rel, crate=crate)
+                print(b, ok1)
 PY
 echo setup done
